@@ -365,6 +365,8 @@ ITEMS = [
     ("enum X { A, B(u8), C { x: u8 } }", ["Clone", "Debug", "PartialEq", "Eq", "PartialOrd", "Ord", "Hash", "Copy"]),
     ("enum X<T> { #[default] A, B(T) }", ["Default", "Clone", "Debug"]),
     ("struct X { #[eq(key = $.len())] a: String, #[debug(ignore)] b: u8 }", ["PartialEq", "Eq", "Debug", "Clone"]),
+    # literals whose text contains runs of blanks, a tab and a line break: the dump shows them as they are
+    ("struct X { #[default(\"a  b\tc\nd\")] s: String, #[ord(key = $.replace(\"   \", \" \"))] #[default(\"  \")] t: String, #[default('\t')] c: char }", ["Default", "Clone", "PartialEq", "PartialOrd", "Hash", "Debug"]),
 ]
 IMPL_ITEMS = [
     ("impl std::ops::AddAssign<u8> for Y { fn add_assign(&mut self, r: u8) { self.0 += r; } }", "Add"),
@@ -372,7 +374,22 @@ IMPL_ITEMS = [
     ("impl std::ops::Sub<&Y> for &Y { type Output = Y; fn sub(self, r: &Y) -> Y { Y(self.0 - r.0) } }", "SubAssign"),
     ("impl std::ops::BitOr<Y> for Y { type Output = Y; fn bitor(self, r: Y) -> Y { Y(self.0 | r.0) } }", "BitOrAssign"),
     ("impl<T: Copy> std::ops::MulAssign<&Z<T>> for Z<T> where T: std::ops::MulAssign { fn mul_assign(&mut self, r: &Z<T>) { self.0 *= r.0; } }", "Mul"),
+    ("impl std::ops::Add<K<{ \"a  b\t\".len() }>> for Y { type Output = Y; fn add(self, r: K<{ \"a  b\t\".len() }>) -> Y { self } }", "Add, AddAssign"),
 ]
+
+
+_LIT = re.compile("b?r(#*)\".*?\"\\1|b?\"(?:\\\\.|[^\"\\\\])*\"|b?'(?:\\\\.|[^'\\\\])'", re.S)
+
+
+def tnorm(s):
+    """token-string normalisation for the dump comparison: whitespace between tokens does not count, whitespace inside string / char literals does"""
+    out, pos = [], 0
+    for m in _LIT.finditer(s):
+        out.append("".join(s[pos:m.start()].split()))
+        out.append(m.group(0))
+        pos = m.end()
+    out.append("".join(s[pos:].split()))
+    return "".join(out)
 
 
 def trait_of(it):
@@ -446,7 +463,7 @@ def compare_dump(plain, dumped_res, order, dumped, mode="attr"):
     k0 = 1 if mode == "attr" else 0
     p0, gen = pi[:k0], pi[k0:]
     pos = 0
-    expected = [common.norm(it.get("text", "")) for it in p0]
+    expected = [tnorm(it.get("text", "")) for it in p0]
     for t in order:
         seg = []
         # an entry's output: its impls, plus items that are no impls (hidden assertion functions) directly behind them
@@ -456,9 +473,9 @@ def compare_dump(plain, dumped_res, order, dumped, mode="attr"):
         if not seg:
             return "skip"  # the generated impls cannot be assigned to the list entries by trait name
         if t in dumped:
-            expected.append(("dump", common.norm(" ".join(s["text"] for s in seg))))
+            expected.append(("dump", tnorm(" ".join(s["text"] for s in seg))))
         else:
-            expected += [common.norm(s["text"]) for s in seg]
+            expected += [tnorm(s["text"]) for s in seg]
     if pos != len(gen):
         return "skip"
     got = []
@@ -466,9 +483,9 @@ def compare_dump(plain, dumped_res, order, dumped, mode="attr"):
         if it.get("kind") == "compile_error":
             msg = it.get("msg", "")
             m = re.match(r"\s*[\w ]*:?\s*\n", msg)
-            got.append(("dump", common.norm(msg[m.end():] if m else msg)))
+            got.append(("dump", tnorm(msg[m.end():] if m else msg)))
         else:
-            got.append(common.norm(it.get("text", "")))
+            got.append(tnorm(it.get("text", "")))
     if got == expected:
         return None
     for k, (g, e) in enumerate(zip(got, expected)):
@@ -514,7 +531,7 @@ def native_failing_neighbours(out):
                     return ", ".join([bad] + ts if order == "bad-first" else ts + [bad]), item
                 reqs = [("attr",) + attr(True, False), ("attr",) + attr(True, True), ("attr",) + attr(False, False), ("attr",) + attr(False, True)]
                 with_bad, with_bad_dump, alone, alone_dump = common.expand_many(reqs)
-                tx = lambda r: [("E", common.norm(it.get("msg", ""))) if it.get("kind") == "compile_error" else ("I", common.norm(it.get("text", ""))) for it in r.get("items", [])[1:]]
+                tx = lambda r: [("E", tnorm(it.get("msg", ""))) if it.get("kind") == "compile_error" else ("I", tnorm(it.get("text", ""))) for it in r.get("items", [])[1:]]
                 a, b, c, d = tx(with_bad), tx(with_bad_dump), tx(alone), tx(alone_dump)
                 n += 1
                 # what the good traits generate does not depend on the failing neighbour: removing the neighbour's error from the output gives the output without it
